@@ -1,4 +1,5 @@
-"""C19 (VectorT algebra), tier U: every operation of VectorT<int,2/3/4> and VectorT<double,3> that the property names,
+"""C19 (VectorT algebra), tier U: every operation of VectorT<int,2/3/4>, VectorT<double,2/3/4>, VectorT<float,3>
+and the narrow-scalar VectorT<signed char,3>, VectorT<short,3> that the property names,
 against its component-wise definition, for ALL component values (integers: within a range that excludes signed
 overflow, which is undefined behaviour of the real code as well; doubles: every bit pattern, NaN compared as NaN).
 The loops of the real code run over the compile-time dimension, so the unwinding is complete (unwinding assertions).
@@ -9,7 +10,7 @@ from run import Ob
 D = 'verif_drv__'
 
 def vec_harness(pfx, N, sc):
-    isd = sc == 'double'
+    isd = sc in ('double', 'float')      # floating point: every bit pattern, NaN compared as NaN
     narrow = sc in ('signed char', 'short')
     V = 'struct Geometry_VectorT_%s_%d' % (sc.replace(' ', '_'), N)
     big = {'signed char': '40', 'short': '10000'}.get(sc, '1073741823')
@@ -130,15 +131,15 @@ def obligations():
     GROUP_FUNCS = {'addsub': ['add', 'sub', 'iadd', 'isub', 'neg'], 'muldiv': ['mul', 'imul', 'smul', 'smul_left', 'ismul', 'div', 'idiv', 'sdiv', 'isdiv'], 'compare': ['eq', 'ne', 'lt'],
                    'products': ['dot', 'dot_free', 'dot_member', 'sqrnorm'], 'minmax': ['max', 'min', 'max_abs', 'min_abs', 'l8_norm'], 'norms': ['l1_norm', 'mean', 'mean_abs'],
                    'minimize': ['minimize', 'maximize', 'vmin', 'vmax', 'minimized', 'maximized'], 'construct': ['vectorized', 'from_scalar', 'at', 'swap']}
-    for pfx, N, sc in (('i3', 3, 'int'), ('i2', 2, 'int'), ('i4', 4, 'int'), ('d3', 3, 'double'), ('c3', 3, 'signed char'), ('s3', 3, 'short'), ('d2', 2, 'double'), ('d4', 4, 'double')):
+    for pfx, N, sc in (('i3', 3, 'int'), ('i2', 2, 'int'), ('i4', 4, 'int'), ('d3', 3, 'double'), ('c3', 3, 'signed char'), ('s3', 3, 'short'), ('d2', 2, 'double'), ('d4', 4, 'double'), ('f3', 3, 'float')):
         pre, H = vec_harness(pfx, N, sc)
         for g, body in H.items():
             if sc in ('signed char', 'short') and g in ('muldiv',): continue      # narrow scalars: the groups whose result type is promoted (products, norms) and the order-based ones
             roots = [Q + pfx + '_' + f for f in GROUP_FUNCS[g]]
-            if g == 'products' and N == 3: roots += [Q + pfx + '_cross'] + ([Q + pfx + '_cross_free', Q + pfx + '_cross_member'] if sc != 'double' else [])
+            if g == 'products' and N == 3: roots += [Q + pfx + '_cross'] + ([Q + pfx + '_cross_free', Q + pfx + '_cross_member'] if sc not in ('double', 'float') else [])
             obs.append(Ob(id='C19.%s.%s' % (pfx, g), props=['C19'], quick_for=['C19'] if pfx in ('i3', 'd3') or (pfx == 'c3' and g in ('products', 'norms')) else [], tu='vector', cfg='plain', tier='U', roots=roots,
                           harness=pre + 'void harness(void) {\n' + body + '}\n', unwind=N + 2, adaptive_unwind=False, timeout=900,
-                          flags=((['--div-by-zero-check', '-no:--signed-overflow-check'] + (['--z3'] if g == 'muldiv' else []) if g in ('muldiv', 'products') else ['--div-by-zero-check']) if sc != 'double' else (['--cvc5', '--fpa'] if g in ('addsub', 'muldiv', 'products', 'norms') else [])),
+                          flags=((['--div-by-zero-check', '-no:--signed-overflow-check'] + (['--z3'] if g == 'muldiv' else []) if g in ('muldiv', 'products') else ['--div-by-zero-check']) if sc not in ('double', 'float') else (['--cvc5', '--fpa'] if g in ('addsub', 'muldiv', 'products', 'norms') else [])),
                           note='VectorT<%s,%d> %s operations against their component-wise definitions, all component values%s' % (sc, N, g, ' within the stated no-overflow range' if sc == 'int' else ' (every bit pattern)')))
     obs.append(Ob(id='C19.convert', props=['C19'], quick_for=['C19'], tu='vector', cfg='plain', tier='U', roots=[Q + f for f in ('i3_make', 'd3_from_i3', 'd3_assign_i3', 'i3_from_d3', 'f3_from_d3', 'i3_from_ptr', 'd4_homogenized')],
                   harness=EXTRA, unwind=6, adaptive_unwind=False, timeout=900, flags=['--z3', '--fpa'], note='conversions between scalar types, component/iterator constructors, homogenized()'))
